@@ -41,6 +41,32 @@ def check(repo: Repo, rep: Report) -> None:
     rep.rule("P3-stops-after-raise", "an exception from the action stops the periodic work and propagates", floor=2)
     rep.rule("P4-period", "next tick after (period - elapsed); first tick after one period", floor=3)
     rep.rule("P5-timers", "timer tick counting; interval = timer(p, p)", floor=3)
+    rep.rule("P6-state-forwarded", "a scheduler's schedule / schedule_relative / schedule_absolute that hands its own `action` to another "
+                                   "schedule* call hands its `state` on too (the periodic wrapper threads its state through exactly these calls)", floor=20)
+    SCHED = ("schedule", "schedule_relative", "schedule_absolute")
+    for rel in sorted(repo.modules):
+        if not rel.startswith("reactivex/scheduler/"):
+            continue
+        for c in repo.modules[rel].tree.body:
+            if not isinstance(c, ast.ClassDef):
+                continue
+            for mth in c.body:
+                if not (isinstance(mth, ast.FunctionDef) and mth.name in SCHED):
+                    continue
+                ps = [a.arg for a in mth.args.args]
+                if len(ps) < 3:
+                    continue
+                act, st = (ps[-2], ps[-1])      # (self, [duetime,] action, state)
+                for x in ast.walk(mth):
+                    if isinstance(x, ast.Call) and isinstance(x.func, ast.Attribute) and x.func.attr.lstrip("_") in SCHED:
+                        vals = list(x.args) + [k.value for k in x.keywords]
+                        if not any(isinstance(a, ast.Name) and a.id == act for a in vals):
+                            continue
+                        ok = any(isinstance(a, ast.Name) and a.id == st for a in vals)
+                        rep.ob("P6-state-forwarded", f"{rel}::{c.name}.{mth.name}", f"{c.name}.{mth.name}: `{short(x, 70)}`", ok,
+                               f"{c.name}.{mth.name} re-schedules its action through `{short(x, 60)}` without the state it was given: the action is "
+                               f"invoked with None — a periodic wrapper scheduled through this path (e.g. a reschedule with an overdue / zero "
+                               f"due time) loses the state it threads from tick to tick and stops ticking")
     # PeriodicScheduler
     per = repo.fn(PS, "PeriodicScheduler.schedule_periodic.periodic")
     sp = repo.fn(PS, "PeriodicScheduler.schedule_periodic")
